@@ -20,7 +20,9 @@ var SemanticEdits = []string{"rename-call", "change-literal", "add-stage-in", "a
 	// same call name, another callee with a different signature, both stages declared on both sides
 	"switch-callee-extra-out", "switch-callee-toggle-split",
 	// definition of a struct type that parameters of called stages have
-	"struct-add-member", "struct-retype-member", "struct-drop-member", "struct-member-array"}
+	"struct-add-member", "struct-retype-member", "struct-drop-member", "struct-member-array",
+	// what a wildcard binding (* = CALL) takes its values from
+	"retarget-wildcard"}
 
 // PreEdit names the edit that is applied to BOTH sides before kind is applied
 // to the edited side ("" for none).
@@ -432,6 +434,48 @@ func ApplyEdit(p *Program, kind string, site int) bool {
 					s.ChunkOuts = []Param{{T: IntT, Name: "verif_chunk_out"}}
 				}
 				return true
+			}
+		}
+	case "retarget-wildcard":
+		// * = X becomes * = Y, Y another call of the same callee in the
+		// same pipeline (same outputs, different values)
+		for _, pl := range p.Pipelines {
+			other := func(id string) string {
+				var callee string
+				for _, c := range pl.Calls {
+					if c.Id() == id {
+						callee = c.Callee
+					}
+				}
+				for _, c := range pl.Calls {
+					if c.Callee == callee && c.Id() != id {
+						return c.Id()
+					}
+				}
+				return ""
+			}
+			try := func(b *Bind) bool {
+				if b.Name != "*" || b.E == nil || b.E.K != ERefCall || b.E.Path != "" {
+					return false
+				}
+				o := other(b.E.Id)
+				if o == "" || !hit() {
+					return false
+				}
+				b.E = Ref(o)
+				return true
+			}
+			for _, c := range pl.Calls {
+				for i := range c.Binds {
+					if try(&c.Binds[i]) {
+						return true
+					}
+				}
+			}
+			for i := range pl.Ret {
+				if try(&pl.Ret[i]) {
+					return true
+				}
 			}
 		}
 	case "retarget-return":
